@@ -693,6 +693,7 @@ struct Stats {
     persisted: u64,
     rt_fail: u64,
     contract_breaking: u64,
+    deep_rewinds: Vec<(u32, u32, u32)>,
     mem_disagree: u64,
     rebuilds: BTreeMap<&'static str, u64>,
     reversed: u64,
@@ -1254,6 +1255,66 @@ fn advance_case(s: &MigrationState, scanned: u32, est: u32, stats: &mut Stats) {
     *stats.events.entry("advance_lattice").or_default() += 1;
 }
 
+/// One `advance_migration` call with explicit oracle tables, emitted as a case.
+fn advance_case_with(s: &MigrationState, scanned: u32, answers: &BTreeMap<u32, Ans>, mined: &BTreeMap<u32, u32>, stats: &mut Stats) {
+    let pre = p_state(s);
+    let dflt = Ans::Sat(scanned.saturating_sub(1));
+    let mut store = Store { answers: answers.clone(), default: dflt.clone(), mined: mined.clone(), replaced: 0, queries: 0 };
+    let mut rng = ScriptRng { ages: vec![1], pos: 0 };
+    let mut s2 = s.clone();
+    let a = advance_migration(&mut store, &mut s2, DuenessTargets::new(h(scanned), h(scanned)), &AdvanceConfig::new(ReorgSettleDepth::new(10)), &mut rng).unwrap();
+    let ev = format!(
+        "(EAdvance {} {} {} {} {} [1])",
+        scanned,
+        scanned,
+        list(answers.iter().map(|(k, v)| format!("({}, {})", k, v.coq()))),
+        dflt.coq(),
+        list(mined.iter().map(|(k, v)| format!("({}, {})", k, v)))
+    );
+    emit(&pre, ev, &s2, format!("(OStep {} {} {})", p_step(a.step()), boolc(store.replaced > 0), p_next(a.next())), None);
+    *stats.events.entry("advance_sweep_lattice").or_default() += 1;
+}
+
+/// The in-flight sweep's coincidence: in ONE drive call a broadcast row has mined (the store knows,
+/// the state does not yet), the scanned target may already be past its expiry, another in-flight
+/// row draws a finding, and the mined row has unmined, unmarked dependents.
+fn sweep_lattice(stats: &mut Stats) {
+    const T: u32 = 3000;
+    let base = |id: u32, state: u8, deps: Vec<u32>| TxSpec {
+        id, kind: if id == 0 { MigrationTxKind::Preparation { layer: 0, index: 0 } } else { MigrationTxKind::Transfer { crossing: 0 } },
+        deps, sched: T - 40, expiry: 0, anchor: None, txid: 100 + id, unsat: None, fail: None, state, mined_h: T - 50, nf: None,
+    };
+    for a_expiry in [0u32, T - 20, T - 1, T, T + 30] {
+        for a_mined in [None, Some(T - 10), Some(T - 30)] {
+            for b_ans in [Ans::Unsat(0, T - 1), Ans::Unsat(3, T - 2), Ans::Unsat(1, T - 1), Ans::Sat(T - 1)] {
+                for c_state in [0u8, 1, 2] {
+                    for depth2 in [false, true] {
+                        for a_state in [3u8, 2] {
+                            let mut a = base(0, a_state, vec![]);
+                            a.expiry = a_expiry;
+                            let b = base(1, 3, vec![]);
+                            let mut c = base(2, c_state, vec![0]);
+                            c.anchor = Some(T - 400);
+                            let mut txs = vec![a, b, c];
+                            if depth2 {
+                                txs.push(base(3, 1, vec![2]));
+                            }
+                            let s = build_state(MigrationStatus::InProgress, &txs, &[100_000], 100, 144);
+                            let mut answers = BTreeMap::new();
+                            answers.insert(1u32, b_ans.clone());
+                            let mut mined = BTreeMap::new();
+                            if let Some(mh) = a_mined {
+                                mined.insert(100u32, mh);
+                            }
+                            advance_case_with(&s, T, &answers, &mined, stats);
+                        }
+                    }
+                }
+            }
+        }
+    }
+}
+
 /// Exhaustive boundary lattices around every guard of the broadcast and prove queues and of the
 /// overdue shift.
 fn lattices(stats: &mut Stats) {
@@ -1392,6 +1453,144 @@ fn witnesses(stats: &mut Stats) {
     stats.seqs += 3;
 }
 
+// ---------------------------------------------------------------------------------------------
+// wallet rewinds through the REAL SQLite wallet: truncate_to_height / rewind_to_chain_state
+// ---------------------------------------------------------------------------------------------
+const PRUNING_DEPTH: u32 = 100;
+
+/// A small migration whose mined heights, marks and reports are drawn from `pool`.
+fn rewind_state(r: &mut Rng, pool: &[u32], status: MigrationStatus, all_mined: bool) -> MigrationState {
+    let n = r.range(1, 5) as usize;
+    let mut txs = Vec::new();
+    for i in 0..n {
+        let id = i as u32 * 2 + 1;
+        let state = if all_mined { 4 } else { *r.pick(&[1u8, 2, 3, 4, 4, 4]) };
+        txs.push(TxSpec {
+            id,
+            kind: if i + 1 == n || r.bool() { MigrationTxKind::Transfer { crossing: 0 } } else { MigrationTxKind::Preparation { layer: 0, index: i } },
+            deps: if i > 0 && r.bool() { vec![1] } else { vec![] },
+            sched: *r.pick(pool),
+            expiry: if r.bool() { 0 } else { *r.pick(pool) + 50 },
+            anchor: None,
+            txid: 100 + id,
+            unsat: if state != 4 && r.chance(1, 2) { Some((*r.pick(pool), *r.pick(&UKINDS))) } else { None },
+            fail: if state == 2 && r.chance(1, 2) { Some(*r.pick(pool)) } else { None },
+            state,
+            mined_h: *r.pick(pool),
+            nf: None,
+        });
+    }
+    build_state(status, &txs, &[100_000], 20, 144)
+}
+
+fn wallet_rewind_stream(r: &mut Rng, nwallets: usize, tables: &Vec<String>, stats: &mut Stats) {
+    use zcash_client_backend::data_api::chain::ChainState;
+    use zcash_client_backend::data_api::testing::{orchard::OrchardPoolTester, pool::ShieldedPoolTester, AddressType};
+    use zcash_client_backend::data_api::{Account, WalletRead, WalletWrite};
+    use zcash_protocol::consensus::{NetworkUpgrade, Parameters};
+    for w in 0..nwallets {
+        let mut st = TestBuilder::new()
+            .with_data_store_factory(TestDbFactory::default())
+            .with_block_cache(BlockCache::new())
+            .with_account_from_sapling_activation(BlockHash([0; 32]))
+            .build();
+        let account = st.test_account().cloned().expect("test account").id();
+        let net = *st.network();
+        let sapling = u32::from(net.activation_height(NetworkUpgrade::Sapling).expect("sapling"));
+        let other_fvk = OrchardPoolTester::sk_to_fvk(&OrchardPoolTester::sk(&[1u8; 32]));
+        let first = 8u32;
+        for _ in 0..first {
+            st.generate_next_block(&other_fvk, AddressType::DefaultExternal, Zatoshis::const_from_u64(10_000));
+        }
+        st.scan_cached_blocks(h(sapling), first as usize);
+        let t = sapling + first - 1; // the deep rewind target
+        let extra = PRUNING_DEPTH + 10;
+        for _ in 0..extra {
+            st.generate_next_block(&other_fvk, AddressType::DefaultExternal, Zatoshis::const_from_u64(5_000));
+        }
+        st.scan_cached_blocks(h(t + 1), extra as usize);
+        let tip = u32::from(st.wallet().chain_height().unwrap().unwrap());
+        let p = tip - (PRUNING_DEPTH - 1);
+
+        // three operations per wallet: a shallow truncation, the deep rewind, a shallow truncation
+        for op in 0..3 {
+            let cur_tip = u32::from(st.wallet().block_max_scanned().unwrap().map(|m| m.block_height()).unwrap_or(h(t)));
+            let p = cur_tip - (PRUNING_DEPTH - 1); // the pruning floor as of the CURRENT tip
+            let (req, pool): (u32, Vec<u32>) = match op {
+                1 => (t, vec![t - 2, t - 1, t, t + 1, t + 5, p - 1, p, p + 1, p + 3, cur_tip]),
+                _ => {
+                    let k = r.range(1, 12) as u32;
+                    let q = cur_tip - k;
+                    (q, vec![q - 3, q - 1, q, q + 1, q + 2, cur_tip, cur_tip - 20])
+                }
+            };
+            // with a settled history record in front of the pending one, half of the time
+            let with_history = r.bool();
+            // the settled record's transactions sit in blocks the wallet KEEPS (a Complete record
+            // un-mined while a newer migration is pending is the store's documented "sharp edge":
+            // the truncation then fails on the one-pending-per-account index, by design)
+            let kept_bound = if op == 1 { std::cmp::max(t, std::cmp::min(t + 5, p.saturating_sub(3))) } else { req }; // the achieved height of a deep rewind is the nearest retained checkpoint, a little below p
+            let kept: Vec<u32> = pool.iter().copied().filter(|x| *x <= kept_bound).collect();
+            let history = rewind_state(r, &kept, MigrationStatus::Complete, true);
+            let status = *r.pick(&[MigrationStatus::InProgress, MigrationStatus::InProgress, MigrationStatus::Committed, MigrationStatus::Complete]);
+            let latest = rewind_state(r, &pool, status, status == MigrationStatus::Complete);
+            // a fresh account history per operation (harness housekeeping: records of earlier
+            // operations would otherwise be revived by this one and collide with the pending one)
+            for tb in [7usize, 2, 1, 6, 5, 4, 3, 0] {
+                st.wallet_mut().conn_mut().execute(&format!("DELETE FROM {}", tables[tb]), []).expect("clear migration tables");
+            }
+            {
+                let mut store = PoolMigrations::for_account(net, SystemClock, st.wallet_mut().conn_mut(), account).expect("store");
+                if with_history {
+                    store.replace_migration(&history).expect("persist history");
+                }
+                store.replace_migration(&latest).expect("persist latest");
+            }
+            let hist_id = {
+                let store = PoolMigrations::for_account(net, SystemClock, st.wallet_mut().conn_mut(), account).expect("store");
+                let l = store.list_migrations().expect("list");
+                if with_history { Some(l[1].id()) } else { None }
+            };
+            let latest_id = {
+                let store = PoolMigrations::for_account(net, SystemClock, st.wallet_mut().conn_mut(), account).expect("store");
+                store.list_migrations().expect("list")[0].id()
+            };
+            let res: Result<u32, String> = if op == 1 {
+                st.wallet_mut()
+                    .rewind_to_chain_state(ChainState::empty(h(req), BlockHash([0; 32])), std::collections::HashSet::new())
+                    .map_err(|e| format!("{:?}", e))
+                    .map(|_| u32::from(st.wallet().block_max_scanned().unwrap().map(|m| m.block_height()).unwrap_or(h(req))))
+            } else {
+                st.wallet_mut().truncate_to_height(h(req)).map(u32::from).map_err(|e| format!("{:?}", e))
+            };
+            let name = if op == 1 { "wallet_deep_rewind" } else { "wallet_truncate" };
+            *stats.events.entry(name).or_default() += 1;
+            let store = PoolMigrations::for_account(net, SystemClock, st.wallet_mut().conn_mut(), account).expect("store");
+            match res {
+                Ok(achieved) => {
+                    let after_latest = store.get_migration_by_id(latest_id).expect("reload").expect("latest present");
+                    emit(&p_state(&latest), format!("(EWalletRewind {} {})", req, achieved), &after_latest, "OUnit".into(), None);
+                    if let Some(hid) = hist_id {
+                        let after_hist = store.get_migration_by_id(hid).expect("reload").expect("history present");
+                        emit(&p_state(&history), format!("(EWalletRewind {} {})", req, achieved), &after_hist, "OUnit".into(), None);
+                    }
+                    if op == 1 {
+                        stats.deep_rewinds.push((req, achieved, tip));
+                    }
+                }
+                Err(e) if e.contains("RequestedRewindInvalid") => {
+                    // the wallet refused the requested height (nothing was rolled back): not a case
+                    *stats.events.entry("wallet_truncate_refused").or_default() += 1;
+                }
+                Err(e) => {
+                    eprintln!("wallet rewind failed (wallet {}, op {}): {} history={} latest={} hist={}", w, op, e, with_history, p_state(&latest), p_state(&history));
+                    emit(&p_state(&latest), format!("(EWalletRewind {} {})", req, req), &latest, "ORewindFailed".into(), None);
+                }
+            }
+        }
+    }
+}
+
 fn main() {
     let a = args();
     quiet_panics();
@@ -1417,6 +1616,12 @@ fn main() {
 
     witnesses(&mut stats);
     lattices(&mut stats);
+    sweep_lattice(&mut stats);
+    {
+        let mut rw = Rng::new(a.seed, 181);
+        let n = if a.thorough() || a.search { 30 } else { 8 };
+        wallet_rewind_stream(&mut rw, n, &tables, &mut stats);
+    }
     let rbctx = RbCtx::new(7);
     for i in 0..nseq {
         let persisted = i % persist_every == 0;
@@ -1454,7 +1659,7 @@ fn main() {
         format!("{{{}}}", m.iter().map(|(k, v)| format!("\"{}\":{}", k, v)).collect::<Vec<_>>().join(","))
     };
     stat(format!(
-        "{{\"sequences\":{},\"states_dag\":{},\"states_crate_strategy\":{},\"events\":{},\"advance_steps\":{},\"advance_calls_that_shifted\":{},\"sqlite_roundtrips\":{},\"sqlite_roundtrip_failures\":{},\"rebuilds\":{},\"contract_breaking_events\":{},\"states_with_forward_dependencies\":{},\"memory_backend_disagreements\":{},\"panics\":{},\"tx_count_hist\":{{{}}}}}",
+        "{{\"sequences\":{},\"states_dag\":{},\"states_crate_strategy\":{},\"events\":{},\"advance_steps\":{},\"advance_calls_that_shifted\":{},\"sqlite_roundtrips\":{},\"sqlite_roundtrip_failures\":{},\"rebuilds\":{},\"contract_breaking_events\":{},\"states_with_forward_dependencies\":{},\"wallet_deep_rewinds_req_achieved_tip\":{},\"memory_backend_disagreements\":{},\"panics\":{},\"tx_count_hist\":{{{}}}}}",
         stats.seqs,
         stats.dag,
         stats.arb,
@@ -1466,6 +1671,7 @@ fn main() {
         j(&stats.rebuilds),
         stats.contract_breaking,
         stats.reversed,
+        format!("[{}]", stats.deep_rewinds.iter().map(|(a, b, c)| format!("[{},{},{}]", a, b, c)).collect::<Vec<_>>().join(",")),
         stats.mem_disagree,
         stats.panics,
         stats.tx_counts.iter().map(|(k, v)| format!("\"{}\":{}", k, v)).collect::<Vec<_>>().join(",")
